@@ -196,9 +196,20 @@ def run_scenario(ctx, base, eapi, tree, nreq, direct=False, fixed=None, allow_ch
 
     source = Src(reqs=fixed) if fixed is not None else Src(fn=nxt)
     try:
-        recs = sc.run(source, direct=direct)
+        try:
+            sc.run(source, direct=direct)
+        except Exception:
+            import traceback
+
+            ctx.count("harness_errors")
+            ctx.set_inconclusive("harness exception (recorded requests were judged): " + traceback.format_exc()[-1500:])
+        recs = list(sc.all_records)
         for idx, rec in enumerate(recs):
             judge(ctx, sc, source.issued, idx, rec)
+        if sc.revived:
+            ctx.count("helpers_replaced_after_dead_coroutine", sc.revived)
+        for n in sc.harness_notes:
+            ctx.note(n)
         if sc.strays:
             ctx.count("stray_writes", len(sc.strays))
     finally:
